@@ -3,6 +3,16 @@
 import json, os, subprocess
 
 CLAIMS = {
+ "C17": dict(
+   category="exploration", design_ref="DESIGN.md §5 C17",
+   technique="model-based testing over generated operation histories (rapid) against a model map, with an outside-tree snapshot and a hook-recorded list of every path handed to the OS for containment",
+   text="Histories of put / put-stream / put-vec / re-put / has / get / get-stream / peek (methods and feature-detecting package functions) over key tables mixing real CID binaries with hostile byte strings (NUL, slashes, dot-dot, '.temp', 300-byte, high bytes, shared shard suffixes) run against memstore, cidlink.Memory and fsstore with default and custom escaping × sharding; a model map decides every result and a final scan reads every key through every read form; the caller's buffer is overwritten after each put. For fsstore the directory tree outside the base is compared after every operation and, through the verif hook, every path given to the OS must lie under the base.",
+   note="Trusted: Linux filesystem, the model map. Accepted outcomes: a put refused cleanly (name too long) leaves the key absent; Has may report such a key through an error. The empty key is fsstore's documented abort sentinel and is not used as a key."),
+ "C18": dict(
+   category="fault_enumeration", design_ref="DESIGN.md §5 C18, Appendix D",
+   technique="fault enumeration through build-tagged hook points: every hook point of each generated scenario × {simulated crash, injected error}, checked by reopening the directory with a new store; plus race-detector runs of concurrent writers/readers with injected yields and (thorough) real SIGKILL trials of a child process",
+   text="For generated scenarios (fresh / existing shard directory, re-put, chunked stream, abandoned stream, abort with the empty key, write error, cancelled context; drawn keys, sizes, escaping, sharding) the operation is first run to record its hook points, then re-run once per hook point and fault kind: the hook panics (all in-memory state abandoned) or returns an error. A new Store opened on the directory must then find every committed key complete, the in-flight key absent or complete, no partial self-describing blob outside the staging area, and fresh puts/gets working. Concurrent writers and readers (race detector on) must only see absent or complete content. Thorough adds hundreds of real SIGKILLs of a writing child process.",
+   note="Crash points are at hook granularity (between library-level filesystem calls), not instruction granularity; power loss / fsync ordering is outside the property. Schedules of the concurrent part are sampled. Hooks: /repo commit 'hook: verif-tagged ...' (add-only, no-op without the tag)."),
  "C16": dict(
    category="exploration", design_ref="DESIGN.md §5 C16",
    technique="model-based testing (rapid): generated sequences of FocusedTransforms and selector-driven WalkTransforming over generated linked graphs, compared with a reference pure functional update / top-down replacement on the abstract graph, with separate read and write stores and input snapshots",
